@@ -460,12 +460,53 @@ def discharge(pc, goal, timeout_ms, axioms=()):
         return "proved", None, dt, "z3"
     if r == z3.sat:
         return "refuted", s.model(), dt, "z3"
+    # refutation-only retry: pow2 interpreted exactly on 0..96 (ground facts, no
+    # quantifiers), every pow2 argument constrained to that range.  A model
+    # found this way is a genuine counterexample candidate (replayed natively).
+    if any(S._uses_pow2(e) for e in exprs):
+        m = _pow2_bounded_model(list(pc) + [z3.Not(goal)], axioms, min(timeout_ms, 5000))
+        if m is not None:
+            return "refuted", m, time.time() - t0, "z3"
     # second back end: cvc5 through SMT-LIB2
     st = _cvc5_check(s, timeout_ms)
     dt = time.time() - t0
     if st == "unsat":
         return "proved", None, dt, "cvc5"
     return "unknown", None, dt, "z3+cvc5:" + str(s.reason_unknown())
+
+
+def _pow2_args(exprs):
+    seen, out, todo = set(), [], list(exprs)
+    while todo:
+        t = todo.pop()
+        if t.get_id() in seen:
+            continue
+        seen.add(t.get_id())
+        if z3.is_app(t):
+            if t.decl().name() == "pow2" and t.num_args() == 1:
+                out.append(t.arg(0))
+            todo.extend(t.children())
+        elif z3.is_quantifier(t):
+            todo.append(t.body())
+    return out
+
+
+def _pow2_bounded_model(exprs, axioms, timeout_ms, bound=96):
+    s = z3.Solver()
+    s.set("timeout", timeout_ms)
+    for i in range(bound + 1):
+        s.add(S.pow2f(i) == z3.IntVal(1 << i))
+    for a in _pow2_args(exprs):
+        if z3.is_var(a):
+            return None
+        s.add(z3.And(a >= 0, a <= bound))
+    for a in axioms:
+        s.add(a)
+    for e in exprs:
+        s.add(e)
+    if s.check() == z3.sat:
+        return s.model()
+    return None
 
 
 def _cvc5_check(solver, timeout_ms):
@@ -795,3 +836,30 @@ def replay_native(contract, gridpoint, inputs):
             detail["expected"] = "postcondition evaluation failed: %r" % (e,)
             return None, detail
     return True, detail
+
+
+# ------------------------------------------------------------------ lemmas
+
+class Lemma:
+    """A spec-level obligation  hyps => goal  (e.g. an induction step whose
+    induction hypothesis is listed in hyps; z3 does no induction by itself)."""
+
+    def __init__(self, name, build, note=""):
+        self.name = name
+        self.build = build
+        self.note = note
+
+    def run(self, timeout_ms):
+        c = Ctx((), timeout_ms)
+        set_ctx(c)
+        try:
+            hyps, goal = self.build()
+            hyps = [as_z3_bool(h) for h in hyps]
+            goal = as_z3_bool(goal)
+        finally:
+            set_ctx(None)
+        st, model, dt, backend = discharge(list(c.pc) + hyps, goal, timeout_ms)
+        info = {"time": dt, "backend": backend.split(":")[0]}
+        if st == "refuted":
+            info["model_text"] = str(model)[:1500]
+        return st, info
